@@ -51,8 +51,32 @@ func (f *frame) call(i *ssa.Call, cc *ssa.CallCommon, n *node, st *State) *State
 	return st2
 }
 
-// callTarget applies a call given evaluated arguments.
+// callTarget applies a call given evaluated arguments, then the interference declared for the site
+// (at call callee#n: interference loc, ...): while the call blocks, other goroutines may change these
+// locations, so they hold arbitrary values afterwards.
 func (f *frame) callTarget(cc *ssa.CallCommon, fnVal *Value, args []Value, n *node, st *State, pos token.Pos, rt types.Type) (Value, *State) {
+	res, out := f.callTargetInner(cc, fnVal, args, n, st, pos, rt)
+	if out == nil || f.c == nil || len(f.c.CallInterf) == 0 {
+		return res, out
+	}
+	key := CalleeKey(cc)
+	if key == "" {
+		return res, out
+	}
+	site := fmt.Sprintf("%s#%d", shortKey(key), f.siteOrd(key, pos))
+	if cl := f.c.CallInterf[site]; len(cl) > 0 {
+		f.x.hitSites["interference "+site] = true
+		sc := f.x.newSpecCtx(f, n, out, f.x.entryState)
+		sc.anchor = pos
+		f.x.havocModifies(sc, cl, out)
+		for _, c := range cl {
+			f.x.note("interference: while " + site + " blocks, other goroutines may change " + c.Text)
+		}
+	}
+	return res, out
+}
+
+func (f *frame) callTargetInner(cc *ssa.CallCommon, fnVal *Value, args []Value, n *node, st *State, pos token.Pos, rt types.Type) (Value, *State) {
 	x := f.x
 	key := CalleeKey(cc)
 	var callee *ssa.Function
@@ -1484,6 +1508,13 @@ func (f *frame) siteOrd(key string, pos token.Pos) int {
 				case *ssa.UnOp:
 					if i.Op == token.ARROW {
 						add("recv "+chanSiteName(i.X), i.Pos())
+					}
+				case *ssa.Select:
+					// the receiving cases of a select count as receive sites of their channel
+					for _, s := range i.States {
+						if s.Dir == types.RecvOnly {
+							add("recv "+chanSiteName(s.Chan), s.Pos)
+						}
 					}
 				}
 			}
